@@ -86,7 +86,12 @@ def run(R):
             alg.xi, alg.ln_likelihood_xi, alg.dc = dict(frm), Lf, dc
             with np.errstate(all='ignore'):
                 return float(alg.acceptance(dict(to), Lt))
-        a12, a21 = acc(x, L, x2, L2), acc(x2, L2, x, L)
+        try:
+            a12, a21 = acc(x, L, x2, L2), acc(x2, L2, x, L)
+        except Exception as ex:
+            bad = bad or {'kind': 'shift', 'check': 'acceptance raised %s' % type(ex).__name__, 'error': repr(ex), 'prior': prior, 'dc': dc,
+                          'alpha': {k: alg.alpha[k] for k in MAXA}, 'x': x, 'x2': x2, 'L': L, 'L2': L2}
+            continue
         q21, q12 = q_true(x2, x, alg.alpha, dc), q_true(x, x2, alg.alpha, dc)
         alg.dc = dc
         if not close(float(alg.transition_pdf(x2, x)), q21, 1e-9):
